@@ -236,11 +236,109 @@ def run_cases(ctx, st, stream, cases, generated_only=False):
             ctx.compare(stream + '-mirror', text, {'error': err}, resp.get('mirror'))
             continue
         impl = progen.canon_script(model, with_fid=False)
-        ctx.compare(stream + '-spec', text, impl, progen.round_script_numbers(resp.get('spec')))
-        ctx.compare(stream + '-mirror', text, impl, progen.round_script_numbers(resp.get('mirror')))
+        for side in ('spec', 'mirror'):
+            out = resp.get(side)
+            if out != impl:                       # literals are exact rationals on the model side: round only when it matters
+                out = progen.round_script_numbers(out)
+            ctx.compare(f'{stream}-{side}', text, impl, out)
         tag = check_model(ctx, text, model, generated_only)
         nlabels = sum(1 for _, stmts in scopes_of(model['statements']) for s in stmts if 'label' in s)
         st.case(text, nontrivial=nlabels > 0, tags=list(tags) + ['exec:' + tag])
+
+
+# ---------------------------------------------------------------------------------------------------------------------
+# parallel execution of a stream: forked workers (the implementation modules are inherited), results merged in order
+# ---------------------------------------------------------------------------------------------------------------------
+
+_WORK = {}
+
+
+def shape_cases(chunk):
+    cases = []
+    for slots, shape in chunk:
+        body = build(shape)
+        for context in CONTEXTS:
+            cases.append((in_context(body, context), ['depth%d' % len(shape), context, 'ext' if slots else 'lit'] +
+                          sorted({lvl[0] for lvl in shape})))
+    return cases
+
+
+def _worker(job):
+    kind, stream, payload, generated_only = job
+    ctx = fw.Ctx(ID, _WORK['tier'], _WORK['seed'])
+    ctx.driver = fw.Driver(DRIVER)
+    st = fw.StreamStats(stream, '')
+    try:
+        run_cases(ctx, st, stream, shape_cases(payload) if kind == 'shapes' else payload, generated_only)
+    except fw.DriverCrash as exc:
+        return {'crash': str(exc)}
+    return {'evaluations': st.evaluations, 'hashes': st.hashes, 'hist': st.hist, 'samples': st.samples,
+            'disagreements': ctx.disagreements, 'witnesses': ctx.witnesses, 'checked': ctx.disagreements_checked,
+            'requests': ctx.driver.requests}
+
+
+def merge(ctx, st, res):
+    if 'crash' in res:
+        raise fw.DriverCrash(res['crash'], 0)
+    st.evaluations += res['evaluations']
+    st.hashes |= res['hashes']
+    for k, v in res['hist'].items():
+        st.hist[k] = st.hist.get(k, 0) + v
+    for smp in res['samples']:
+        if len(st.samples) < 3:
+            st.samples.append(smp)
+    for d in res['disagreements']:
+        if d is None:
+            ctx.disagreements.append(None)
+        else:
+            ctx.disagree(d['stream'], d['case'], d['impl'], d['model'], d.get('note', ''))
+    for w in res['witnesses']:
+        if len(ctx.witnesses) < 200:
+            ctx.witnesses.append(w)
+    ctx.disagreements_checked += res['checked']
+    ctx.driver.requests += res['requests']
+
+
+def n_workers():
+    return max(1, int(os.environ.get('VERIF_WORKERS', '') or min(8, (os.cpu_count() or 2) // 2)))
+
+
+def run_jobs(ctx, st, jobs, deadline=None):
+    """Run jobs (in order); returns the number of jobs completed (all, unless the deadline stopped the submission)."""
+    fw.impl()                                     # import the implementation before forking
+    _WORK.update(tier=ctx.tier, seed=ctx.seed)
+    done = 0
+    nw = n_workers()
+    if nw == 1 or len(jobs) == 1:
+        for job in jobs:
+            if deadline is not None and ctx.elapsed() > deadline:
+                break
+            merge(ctx, st, _worker(job))
+            done += 1
+        return done
+    import multiprocessing
+    with multiprocessing.get_context('fork').Pool(nw) as pool:
+        pending = []
+        it = iter(jobs)
+        exhausted = False
+        while pending or not exhausted:
+            while not exhausted and len(pending) < 2 * nw:
+                if deadline is not None and ctx.elapsed() > deadline:
+                    exhausted = True
+                    break
+                job = next(it, None)
+                if job is None:
+                    exhausted = True
+                    break
+                pending.append(pool.apply_async(_worker, (job,)))
+            if pending:
+                merge(ctx, st, pending.pop(0).get())
+                done += 1
+    return done
+
+
+def chunks(seq, n):
+    return [seq[i:i + n] for i in range(0, len(seq), n)]
 
 
 def load_corpus():
@@ -264,39 +362,43 @@ def streams(ctx):
         run_cases(ctx, st, 'corpus', [(progen.assign_fids(c['prog']), ['corpus']) for c in corpus if not c.get('raw')])
         run_cases(ctx, st, 'corpus', [(progen.assign_fids(c['prog']), ['corpus-raw']) for c in corpus if c.get('raw')], generated_only=True)
 
-    # --- stream shapes: exhaustive
-    depth_a = ctx.scale(2, 4)      # literal space of the property statement
-    depth_b = ctx.scale(2, 3)      # extended space: child in every branch, break/continue in every in-loop block
+    # --- stream shapes: exhaustive, literal space depth <= 3 (quick 2) + extended space depth <= 3 (quick 2)
+    depth_a = ctx.scale(2, 3)
+    depth_b = ctx.scale(2, 3)
     st = ctx.stream('shapes',
                     f'EXHAUSTIVE: every nesting chain of the 7 construct variants {{if, if-else, if-elif, if-elif-else, while, for, '
-                    f'for-with-index}} with optional break/continue at each loop level, depth 1..{depth_a} (child in the first branch), '
-                    f'plus the extended space (child in EVERY branch, break/continue in every block inside a loop, so that they bind '
-                    f'through nested ifs) depth 1..{depth_b}; each at global scope, inside a function, and with several functions in one '
-                    f'script; non-trivial = the lowered code defines at least one label')
+                    f'for-with-index}} with optional break/continue at each loop level, depth 1..{depth_a} (nested construct in the first '
+                    f'branch), plus the extended space (nested construct in EVERY branch, break/continue in every block inside a loop, so '
+                    f'that they bind through nested ifs) depth 1..{depth_b}; each at global scope, inside a function, and with several '
+                    f'functions in one script; non-trivial = the lowered code defines at least one label')
     seen = set()
-    batch = []
-
-    def flush():
-        if batch:
-            run_cases(ctx, st, 'shapes', batch)
-            batch.clear()
-
+    todo = []
     for slots, maxd in ((False, depth_a), (True, depth_b)):
         for depth in range(1, maxd + 1):
             for shape in shapes(depth, False, slots):
-                if shape in seen:
-                    continue
-                seen.add(shape)
-                body = build(shape)
-                for context in CONTEXTS:
-                    batch.append((in_context(body, context), ['depth%d' % depth, context, 'ext' if slots else 'lit'] +
-                                  sorted({lvl[0] for lvl in shape})))
-                if len(batch) >= 6000:
-                    flush()
-    flush()
+                if shape not in seen:
+                    seen.add(shape)
+                    todo.append((slots, shape))
+    jobs = [('shapes', 'shapes', ch, False) for ch in chunks(todo, 700)]
+    run_jobs(ctx, st, jobs)
     st.exhaustive = True
-    ctx.notes.append(f'shapes: literal space depth<={depth_a}, extended space depth<={depth_b}: {len(seen)} distinct shapes x {len(CONTEXTS)} '
-                     f'contexts, enumerated completely')
+    ctx.notes.append(f'shapes: literal space depth<={depth_a} + extended space depth<={depth_b}: {len(seen)} distinct shapes x '
+                     f'{len(CONTEXTS)} contexts, enumerated completely')
+
+    # --- stream shapes4 (thorough): the literal space at depth 4 - exhaustive if it fits the time budget, else a uniform sample
+    if not ctx.quick:
+        st = ctx.stream('shapes4',
+                        'every nesting chain of exactly 4 of the 7 construct variants with optional break/continue at each loop level '
+                        '(16^4 = 65536 shapes) x {global, in a function, several functions}; chunks are visited in a seeded random order so '
+                        'that a run cut short by the time budget is a uniform sample (then exhaustive=false); non-trivial = defines a label')
+        todo4 = [(False, shape) for shape in shapes(4, False, False)]
+        ctx.rng('shapes4').shuffle(todo4)
+        jobs = [('shapes', 'shapes4', ch, False) for ch in chunks(todo4, 700)]
+        budget = float(os.environ.get('VERIF_C07_DEPTH4_DEADLINE_S', '430'))
+        done = run_jobs(ctx, st, jobs, deadline=budget)
+        st.exhaustive = (done == len(jobs))
+        ctx.notes.append(f'shapes4: {done}/{len(jobs)} chunks of 700 shapes x {len(CONTEXTS)} contexts '
+                         f'({"EXHAUSTIVE depth 4" if st.exhaustive else "SAMPLED depth 4 (time budget reached)"}), {n_workers()} workers')
 
     # --- stream random: progen programs, depth <= 6
     rng = ctx.rng('random')
@@ -310,8 +412,8 @@ def streams(ctx):
         gen = progen.Gen(rng, max_depth=rng.choice([3, 4, 5, 6]), allow_raw=allow_raw)
         prog = gen.program()
         (raw if allow_raw else plain).append((prog, sorted(gen.stats)))
-    run_cases(ctx, st, 'random', plain)
-    run_cases(ctx, st, 'random', raw, generated_only=True)
+    jobs = [('progs', 'random', ch, False) for ch in chunks(plain, 500)] + [('progs', 'random', ch, True) for ch in chunks(raw, 500)]
+    run_jobs(ctx, st, jobs)
 
 
 def disagreement_known(d, known):
